@@ -229,7 +229,7 @@ func runC03(r *ev.Run, rep *ev.ReplayDoc) ev.Summary {
 			"what counts as committed is what the reference server received between 354 and CRLF.CRLF and acknowledged with 2yz",
 		},
 		Floors:     []ev.Floor{{Counter: "evaluations", Min: 300}, {Counter: "commits_accepted", Min: 200}, {Counter: "failed_renderings_inside_data", Min: 20}, {Counter: "incomplete_data_seen_by_server", Min: 20}},
-		Exhaustive: true,
+		Exhaustive: false, // reply positions and producers are enumerated completely, transport offsets by class + stride
 	}
 	if rep != nil {
 		var c c03Case
